@@ -3,6 +3,11 @@
 import json, subprocess, sys
 
 claimed = {
+ "C17": dict(
+   text="Deductively proved: Sort goes through the stable library sort (the abstract predicate stableSorted is established only by sort.SliceStable's assumed contract, so replacing it by sort.Slice fails the obligation); UTest and TTest compare exactly the retained values (RValues) of the old and the new side, in that order, two-sided, return the test's p-value and map a test error to pval == -1 with a non-nil error.  The table construction (Tables: outlier fence and retained values, the significance gate, percentage, direction, notes, first-appearance order, geomean) iterates maps and is not under contract: covered by a bounded stand-in that recomputes every cell independently.",
+   note="Trusted: the two-sample tests are functions of their arguments (identity of the samples passed); sort.SliceStable is stable.  min <= mean <= max is a floating-point accuracy statement checked only on the bounded corpus.",
+   technique="contract-based deductive verification (call-site contracts through abstract predicates; own VC generator over go/ssa) + bounded recomputation of whole tables",
+   design="5/C17"),
  "C10": dict(
    text="Deductive proof of CommonScale for all inputs: the chosen scale is the one that the prefix table assigns (first threshold reached, 1/2/3 decimals; below the smallest prefix 3+i decimals) to the smallest non-zero magnitude of the values, and the `not reachable` panic is unreachable — floating-point comparisons and the division modelled exactly (SMT FloatingPoint).  The ulp-level claims (mantissa times factor within half a unit of the last digit, four significant digits, boundaries coinciding with rounding such as 999.95 -> 1.000k), the unit class and the no-op scale rest on float division and strconv formatting, which are not modelled: covered by a bounded stand-in at +-40 (thorough 400) ulps around every threshold with exact decimal arithmetic on the printed text.",
    note="Trusted: the threshold tables have the lengths computed at initialisation (lib/globals.spec); math.Abs; strconv.AppendFloat is correctly rounded.  ClassOf / the unit tokeniser are bounded only.",
